@@ -667,6 +667,27 @@ def c10_worlds(rng: random.Random) -> list[dict]:
     # the valid prefixes themselves must stay accepted
     for pn, prefix in PREFIXES.items():
         W(f"valid_prefix_{pn}", {M: PREFIX_MACROS + f"def 0 {{\n    {prefix}\n    ok();\n    end;\n}}\n"}, expect="accept")
+    # degenerate programs named by the property ("a routine holding only a label", "out-of-order routine ids"): whatever the
+    # answer is, it must be success or one of the three documented exception types - in the compiled file and in a macro
+    DEGENERATE = {
+        "routine_holding_only_a_label": "def 0 {\n    @l;\n}\n",
+        "second_routine_holding_only_labels": "def 0 {\n    a();\n    end;\n}\ndef 1 {\n    @a;\n    @b;\n}\n",
+        "jump_to_a_trailing_label": "def 0 {\n    jump @l;\n    @l;\n}\n",
+        "only_meta_attribute_lines": "//?: foo: bar\n//?: x: y",
+        "empty_source": "",
+        "only_a_comment": "// nothing\n",
+        "routine_ids_out_of_order": "def 1 {\n    a();\n    end;\n}\ndef 0 {\n    b();\n    end;\n}\n",
+        "routine_id_gap": "def 0 {\n    a();\n    end;\n}\ndef 2 {\n    b();\n    end;\n}\n",
+        "routine_id_twice": "def 0 {\n    a();\n    end;\n}\ndef 0 {\n    b();\n    end;\n}\n",
+        "decimal_routine_target": "def 0 for actor 1.5 {\n    a();\n    end;\n}\n",
+        "alias_as_first_routine": "def 0 {\n    alias previous;\n}\n",
+        "macro_holding_only_a_label": "macro lbl() {\n    @l;\n}\ndef 0 {\n    ~lbl();\n    end;\n}\n",
+        "macro_ending_in_a_label": "macro lbl() {\n    x();\n    jump @e;\n    y();\n    @e;\n}\ndef 0 {\n    ~lbl();\n    ~lbl();\n    end;\n}\n",
+    }
+    for nm, src in DEGENERATE.items():
+        W(f"degenerate:{nm}", {M: src}, expect="answer")
+        if src.startswith("def") and "//?" not in src:
+            W(f"degenerate:{nm}@imported_sibling_is_fine", {M: 'import "./lib.exps";\n' + src, "/proj/SCRIPT/lib.exps": leaf}, expect="answer")
     # programs marked as SsbScript take another path through compile() (dispatch on the meta attribute)
     MK = "//?: is-ssb-script: true\n"
     W("ssbscript_syntax_error", {M: MK + "def 0 {\n    a(;\n}\n"})
